@@ -253,7 +253,7 @@ func decodeMonitors(d, foreign []byte, direct *layers.GRE, derr error, dreply st
 	// (b) NewPacket with the layer as first decoder, recovery ON: first layer equals the direct decode
 	var pg *layers.GRE
 	var perr bool
-	protect(func() string {
+	_, rpan := protect(func() string {
 		p := gopacket.NewPacket(exact(d), layers.LayerTypeGRE, gopacket.Default)
 		pg = packetGRE(p)
 		perr = p.ErrorLayer() != nil
@@ -277,6 +277,9 @@ func decodeMonitors(d, foreign []byte, direct *layers.GRE, derr error, dreply st
 		p.VerifyChecksums()
 		return ""
 	})
+	if rpan { // recovery is ON here: a panic means a renderer/accessor panicked (C01 rows of this layer)
+		lib.Finding("C01", "lgre:render-panic:"+lastSite, "NewPacket/String/Dump/LayerString/VerifyChecksums panicked ("+lastMsg+") on "+hexd)
+	}
 	// (c) NoCopy / Pool on a buffer with spare capacity: same GRE layer
 	for _, o := range []gopacket.DecodeOptions{{NoCopy: true}, {Pool: true}, {Lazy: true, NoCopy: true}} {
 		o := o
@@ -706,6 +709,9 @@ func serMonitors(s *serArgs, first []byte, mutated *layers.GRE, opts gopacket.Se
 		case df.truncated:
 			lib.Finding("C06", "lgre:roundtrip:Truncated", "decode of serialized layer sets the truncation flag")
 		default:
+			if _, vr := d.VerifyChecksum(); !vr.Valid { // C08 row of this layer: a written checksum verifies
+				lib.Finding("C08", "lgre:written-checksum-invalid", "VerifyChecksum rejects the checksum SerializeTo computed: "+lib.Hex(first))
+			}
 			if f := firstDiff(d, mutated, true); f != "" {
 				lib.Finding("C06", "lgre:roundtrip:"+f, fmt.Sprintf("wrote {%s}, read back {%s}", render(mutated), render(d)))
 			} else if !bytes.Equal(d.Payload, s.payload) {
